@@ -1,7 +1,8 @@
 \* C10 leg A (block-set dynamics) quick: 4 blocks (two halves, their compaction, another stream), 5 selector sets,
-\* upload / delete / compact / sync / query / evict, <= 5 steps
+\* upload / delete / compact / sync / query / evict, <= 4 steps
 SPECIFICATION Spec
-CONSTANTS MaxSteps = 5
+CONSTANTS MaxSteps = 4
 INVARIANT C10_AnswerIsSelectionOverLoadedBlocks
 INVARIANT LoadedFollowsBucketAtSync
+VIEW View
 CHECK_DEADLOCK FALSE
